@@ -28,7 +28,12 @@ class RichMrgnEditor:
         # TODO: unit test the creation MRGN lookup here too https://github.com/sethmachine/richchk/issues/80
         loc_by_id = {loc.index: loc for loc in new_locations if loc.index is not None}
         id_by_loc = {loc: loc.index for loc in new_locations if loc.index is not None}
-        for i, loc in enumerate(unique_locations_to_add):
+        # place locations that carry an index before allocating indices for the others, so a
+        # carried index is never handed to a new location whatever the iteration order
+        locations_in_placement_order = sorted(
+            unique_locations_to_add, key=lambda location: location.index is None
+        )
+        for i, loc in enumerate(locations_in_placement_order):
             if loc.index is not None:
                 self._throw_if_index_is_out_of_range(loc.index)
                 # check against the indices placed so far, not only the original MRGN
